@@ -433,6 +433,14 @@ STANDALONE = [
 ]
 
 
+def _run_one(arg: tuple[int, bool]) -> dict[str, Any]:
+    seed, udp = arg
+    try:
+        return vloop.run(lambda: _async_history(seed, udp=udp), spin_limit=20000)  # type: ignore[no-any-return]
+    except vloop.VirtualDeadlock as exc:
+        return {"events": [dict(EVD, ev="deadlock")], "meta": f"async seed={seed} VirtualDeadlock {exc}"}
+
+
 def run(chk: Check) -> None:
     quick = chk.tier == "quick"
     chk.rule = (
@@ -441,13 +449,9 @@ def run(chk: Check) -> None:
         "distinct = distinct event sequences"
     )
     _model(chk, quick)
-    rec: list[dict[str, Any]] = []
-    for i in range(250 if quick else 4000):
-        seed = chk.seed * 9973 + i
-        try:
-            rec.append(vloop.run(lambda: _async_history(seed, udp=(i % 3 == 2)), spin_limit=20000))
-        except vloop.VirtualDeadlock as exc:
-            rec.append({"events": [dict(EVD, ev="deadlock")], "meta": f"async seed={seed} VirtualDeadlock {exc}"})
+    from ..common import pmap
+
+    rec: list[dict[str, Any]] = pmap(_run_one, [(chk.seed * 9973 + i, i % 3 == 2) for i in range(250 if quick else 10000)])
     for sc in STANDALONE:
         rec.append(_standalone_history(sc))
     slim = [{"events": traces.uniform(t["events"], EVD)} for t in rec]
